@@ -1783,7 +1783,9 @@ class FileBuilder:
                 raise RuntimeError(
                     "The build_file* call for {:s} didn't create that "
                     'file'.format(filename))
-        except Exception:
+        except BaseException:
+            # This includes exceptions that don't derive from Exception, such
+            # as KeyboardInterrupt and SystemExit
             self._handle_error_building_file()
             raise
 
@@ -1879,7 +1881,7 @@ class FileBuilder:
                 operation.return_value = self._call_and_sanitize_return_value(
                     func, [self] + copy.deepcopy(operation.args),
                     copy.deepcopy(operation.kwargs), description)
-            except Exception:
+            except BaseException:
                 operation.raised = True
                 raise
             finally:
